@@ -2,6 +2,7 @@ import DeltaModel.Proto
 import DeltaModel.Sgr
 import DeltaModel.Term
 import DeltaModel.Style
+import DeltaModel.PaintLine
 /-!
 Model driver `drv_style` (C12, C09): answers the `style.*` requests of
 /repo/src/verif_hooks/style.rs from the Lean model (same dump formats; see that file).
@@ -281,4 +282,100 @@ def step (line : String) : String :=
 
 end DrvStyle
 
-def main : IO Unit := serve DrvStyle.step
+/-!
+`paint.line` (C09, session 4): one output line of `Painter::paint_lines` from the model `PaintLine.paintedLine`.
+
+  paint.line <minus> <zero> <plus> <minus-non-emph> <plus-non-emph> <null>      (ansi style dumps)
+             <keep-markers 0|1> <line-numbers 0|1> <bg-extends 0|1> <available width>
+             <state> <homolog 0|1> <empty-line style | -> <bg no|ansi|spaces> <syntax-empty 0|1>
+             <k> {<ansi> <piece>}*          the gutter strings; piece = P:<clusters> | L:x<url>:<clusters>
+             <n> {<ansi> <clusters>}*       the superimposed sections; clusters = <hex>,<w>;… | -
+             <d> {<ansi> x<text>}*          the diff sections
+  state as in /repo/src/verif_hooks/style.rs `style.paint_lines`.
+  -> ok x<line> <text width> | PANIC | ERR x<why>
+-/
+namespace DrvPaint
+open DrvStyle PaintLine
+
+def parseClusters (f : String) : Option (List Line.G) :=
+  if f = "-" || f = "" then some []
+  else (f.splitOn ";").mapM fun g =>
+    match g.splitOn "," with
+    | [h, w] => match charsOfField ("x" ++ h), w.toNat? with
+      | some s, some w => some (⟨s, w⟩ : Line.G)
+      | _, _ => none
+    | _ => none
+
+def parsePiece (f : String) : Option PPiece :=
+  match f.splitOn ":" with
+  | ["P", c] => (parseClusters c).map .plain
+  | ["L", u, c] => do
+    let u ← charsOfField u
+    let c ← parseClusters c
+    pure (.linked u c)
+  | _ => none
+
+def parseState (f : String) : Option St :=
+  match f with
+  | "m" => some (.hunk .minus false none) | "z" => some (.hunk .zero false none) | "p" => some (.hunk .plus false none)
+  | "M" => some (.hunk .minus true none) | "Z" => some (.hunk .zero true none) | "P" => some (.hunk .plus true none)
+  | "mw" => some (.wrapped .minus) | "zw" => some (.wrapped .zero) | "pw" => some (.wrapped .plus)
+  | "b" => some .blame | "u" => some .other
+  | _ => match f.splitOn ":" with
+    | ["cm", p] => (charsOfField p).map fun p => .hunk .minus false (some p)
+    | ["cz", p] => (charsOfField p).map fun p => .hunk .zero false (some p)
+    | ["cp", p] => (charsOfField p).map fun p => .hunk .plus false (some p)
+    | _ => none
+
+def takeN {α : Type} (item : List String → Option (α × List String)) : Nat → List String → Option (List α × List String)
+  | 0, fs => some ([], fs)
+  | n + 1, fs => do
+    let (x, fs) ← item fs
+    let (xs, fs) ← takeN item n fs
+    pure (x :: xs, fs)
+
+def takeCounted {α : Type} (item : List String → Option (α × List String)) : List String → Option (List α × List String)
+  | n :: fs => n.toNat?.bind fun n => takeN item n fs
+  | [] => none
+
+def step (line : String) : String :=
+  match fields line with
+  | "paint.line" :: a1 :: a2 :: a3 :: a4 :: a5 :: a6 :: keep :: ln :: ext :: avail :: st :: hom :: empty :: bg :: se :: rest =>
+    opt do
+      let s1 ← parseAnsiField a1
+      let s2 ← parseAnsiField a2
+      let s3 ← parseAnsiField a3
+      let s4 ← parseAnsiField a4
+      let s5 ← parseAnsiField a5
+      let s6 ← parseAnsiField a6
+      let cfg : Cfg := { minusStyle := s1, zeroStyle := s2, plusStyle := s3, minusNonEmph := s4, plusNonEmph := s5,
+                         nullStyle := s6, keepMarkers := (← flag keep), lineNumbers := (← flag ln),
+                         bgExtends := (← flag ext), availWidth := (← avail.toNat?) }
+      let st ← parseState st
+      let hom ← flag hom
+      let empty ← if empty = "-" then some none else (parseAnsiField empty).map some
+      let bg ← if bg = "no" then some BgShouldFill.no else if bg = "ansi" then some (.with_ .ansi)
+               else if bg = "spaces" then some (.with_ .spaces) else none
+      let se ← flag se
+      let (gutter, rest) ← takeCounted (fun fs => match fs with
+        | a :: p :: r => do pure ((← parseAnsiField a, ← parsePiece p), r)
+        | _ => none) rest
+      let (secs, rest) ← takeCounted (fun fs => match fs with
+        | a :: c :: r => do pure ((← parseAnsiField a, ← parseClusters c), r)
+        | _ => none) rest
+      let (diff, rest) ← takeCounted (fun fs => match fs with
+        | a :: t :: r => do pure ((← parseAnsiField a, ← charsOfField t), r)
+        | _ => none) rest
+      if rest ≠ [] then none
+      else
+        let inp : Input := { st := st, gutter := gutter, syntaxEmpty := se, sections := secs, diffSections := diff,
+                             hasHomolog := hom, emptyStyle := empty, bg := bg }
+        pure (match paintedLine cfg inp, PaintLine.paintLine cfg inp with
+          | .ok out, .ok (strings, _) => "ok " ++ hexOfChars out ++ " " ++ toString (Line.width (lineItems strings))
+          | .ok out, _ => "ok " ++ hexOfChars out ++ " ?"
+          | .error e, _ => if e.startsWith "panic" then "PANIC" else "ERR " ++ hexOfString e)
+  | _ => "ERR"
+
+end DrvPaint
+
+def main : IO Unit := serve fun line => if line.startsWith "paint." then DrvPaint.step line else DrvStyle.step line
